@@ -53,6 +53,16 @@ type kvOp struct {
 	Tx   []kvOp    `json:"tx,omitempty"`
 	KVs  [][2]bstr `json:"kvs,omitempty"`
 	Fail bool      `json:"fail,omitempty"` // update / bulk: the callback does its work and then returns an error
+	Gen  int       `json:"gen,omitempty"`  // bulk: Gen generated pairs under prefix K (Eval_C10.gen_kvs) instead of KVs
+}
+
+// the pairs of Eval_C10.gen_kvs, in the same order
+func genKVs(p bstr, n int) [][2]bstr {
+	out := make([][2]bstr, 0, n)
+	for i := n - 1; i >= 0; i-- {
+		out = append(out, [2]bstr{p + bstr([]byte{byte(i / 256), byte(i % 256)}), bstr([]byte{byte(48 + i%3)})})
+	}
+	return out
 }
 
 type c10Input struct {
@@ -127,6 +137,9 @@ func opCoq(o kvOp) string {
 		}
 		return "(OUpdate " + coq.List(out) + ")"
 	case "bulk":
+		if o.Gen > 0 {
+			return fmt.Sprintf("(OBulk (gen_kvs %s (N.to_nat %d%%N)))", bcoq(o.K), o.Gen)
+		}
 		out := make([]string, len(o.KVs))
 		for i, kv := range o.KVs {
 			out[i] = coq.Pair(bcoq(kv[0]), bcoq(kv[1]))
@@ -245,6 +258,12 @@ var errCallback = fmt.Errorf("the callback failed")
 
 func runKV(kv kvi.KVInterface, ops []kvOp) []kvRes {
 	out := []kvRes{}
+	// a value handed out by Get is the caller's: it is kept as it is and compared with its contents when the script ends
+	type keptVal struct {
+		raw  []byte
+		copy string
+	}
+	got := []keptVal{}
 	unitOrErr := func(err error) kvRes {
 		if err != nil {
 			return kvRes{T: "panic", Msg: "error: " + err.Error()}
@@ -260,6 +279,7 @@ func runKV(kv kvi.KVInterface, ops []kvOp) []kvRes {
 				if err != nil || v == nil {
 					return kvRes{T: "val"}
 				}
+				got = append(got, keptVal{v, string(v)})
 				return kvRes{T: "val", Some: true, V: bstr(v)}
 			case "has":
 				return kvRes{T: "bool", B: kv.HasKey([]byte(o.K))}
@@ -313,8 +333,12 @@ func runKV(kv kvi.KVInterface, ops []kvOp) []kvRes {
 				}
 				return kvRes{T: "list", L: rs}
 			case "bulk":
+				kvs := o.KVs
+				if o.Gen > 0 {
+					kvs = genKVs(o.K, o.Gen)
+				}
 				err := kv.BulkWrite(func(bl kvi.KVBulkWrite) error {
-					for _, p := range o.KVs {
+					for _, p := range kvs {
 						if err := bl.Set([]byte(p[0]), []byte(p[1])); err != nil {
 							return err
 						}
@@ -331,6 +355,12 @@ func runKV(kv kvi.KVInterface, ops []kvOp) []kvRes {
 			}
 			return kvRes{T: "panic", Msg: "bad op"}
 		}))
+	}
+	for _, r := range got {
+		if string(r.raw) != r.copy {
+			out = append(out, kvRes{T: "panic", Msg: fmt.Sprintf("a value returned by Get changed afterwards: %q became %q", r.copy, string(r.raw))})
+			break
+		}
 	}
 	return out
 }
@@ -463,7 +493,7 @@ func runC10(ctx *Ctx) error {
 	ctx.CaseTy = "c10_case"
 	ctx.HasKF = true
 	ctx.Shard = 120
-	ctx.Rule = "scripts over the kvi interface (Get/HasKey/Set/Delete/DeletePrefix/View with cursor scripts/Update/BulkWrite, a quarter of the latter two with a callback that fails after its writes), keys over {a,b,0x00,0xff} length 1-3, values {'', '1', 'xy'}, each script on a fresh store of each of the four drivers; non-trivial = script with >= 3 operations including a read; distinct by (driver, script)"
+	ctx.Rule = "scripts over the kvi interface (Get/HasKey/Set/Delete/DeletePrefix/View with cursor scripts/Update/BulkWrite, a quarter of the latter two with a callback that fails after its writes), keys over {a,b,0x00,0xff} length 1-3, values {'', '1', 'xy'}, each script on a fresh store of each of the four drivers; values returned by Get and by cursors are kept and compared with their contents when the script ends (one script rewrites the store 120 times underneath them); 9999 / 10000 / 12050 generated keys under one prefix written in one bulk call and deleted by prefix; non-trivial = script with >= 3 operations including a read; distinct by (driver, script)"
 	var inputs []c10Input
 	if ctx.Replay != nil {
 		var in c10Input
@@ -495,6 +525,27 @@ func runC10(ctx *Ctx) error {
 				c10Input{Driver: d, Ops: append(append([]kvOp{}, base...),
 					kvOp{Op: "update", Tx: []kvOp{{Op: "set", K: "a", V: "xy"}, {Op: "del", K: "ab"}, {Op: "set", K: "c", V: "1"}, {Op: "get", K: "a"}}, Fail: true},
 					kvOp{Op: "get", K: "a"}, kvOp{Op: "has", K: "ab"}, kvOp{Op: "has", K: "c"}, kvOp{Op: "view", It: []kvOp{{Op: "seek", K: "a"}, {Op: "next"}, {Op: "next"}, {Op: "next"}, {Op: "next"}}})})
+		}
+		// values read by Get and kept while the store is rewritten underneath them (overwrites, deletes, growth)
+		for _, d := range kvDrivers {
+			ops := append(append([]kvOp{}, base...), kvOp{Op: "get", K: "ab"}, kvOp{Op: "get", K: "b\x00"})
+			for round := 0; round < 2; round++ {
+				for k := 0; k < 60; k++ {
+					ops = append(ops, kvOp{Op: "set", K: bstr(fmt.Sprintf("a%c%c", 'a'+k%2, 'a'+(k/2)%2)), V: bstr(strings.Repeat(string(rune('a'+k%26)), 40+k))})
+				}
+				ops = append(ops, kvOp{Op: "set", K: "ab", V: "zz"}, kvOp{Op: "del", K: "b\x00"}, kvOp{Op: "get", K: "aaa"})
+			}
+			inputs = append(inputs, c10Input{Driver: d, Ops: ops})
+		}
+		// more keys under one prefix than any driver handles in one internal block (Badger deletes in blocks of 9999 keys):
+		// written in one bulk call, probed, deleted by prefix, probed again, next to keys that must stay
+		for _, d := range kvDrivers {
+			for _, n := range []int{9999, 10000, 12050} {
+				probe := kvOp{Op: "view", It: []kvOp{{Op: "seek", K: "p"}, {Op: "next"}, {Op: "seekrev", K: "p\xff\xff\xff"}, {Op: "next"}}}
+				inputs = append(inputs, c10Input{Driver: d, Ops: []kvOp{{Op: "set", K: "a", V: "1"}, {Op: "set", K: "q", V: "xy"}, {Op: "set", K: "p", V: "0"},
+					{Op: "bulk", K: "p", Gen: n}, probe, {Op: "delprefix", K: "p"}, probe, {Op: "has", K: "p"},
+					{Op: "get", K: bstr("p") + bstr([]byte{byte((n - 1) / 256), byte((n - 1) % 256)})}, {Op: "get", K: "a"}, {Op: "get", K: "q"}}})
+			}
 		}
 		for i := 0; i < n; i++ {
 			ops := c10Script(ctx.Rng, 10)
